@@ -21,10 +21,13 @@ type Object struct {
 	Elem  types.Type // element type for slices' backing arrays (may be nil)
 	// provenance tag (used by ownership harnesses): "", "file", "mmap", ...
 	Tag string
+	// Virtual objects back slices whose length is symbolic: cells are
+	// materialised on demand, everything beyond is the zero value of Elem.
+	Virtual bool
 }
 
 func (o *Object) clone(owner int) *Object {
-	n := &Object{owner: owner, IsMap: o.IsMap, Note: o.Note, Elem: o.Elem, Tag: o.Tag}
+	n := &Object{owner: owner, IsMap: o.IsMap, Note: o.Note, Elem: o.Elem, Tag: o.Tag, Virtual: o.Virtual}
 	if o.Cells != nil {
 		n.Cells = make([]Value, len(o.Cells), cap(o.Cells))
 		copy(n.Cells, o.Cells)
@@ -240,11 +243,30 @@ func (s *State) wobj(id int) *Object {
 	return o
 }
 
+// materialize extends a virtual object to at least n cells.
+func (s *State) materialize(id int, n int) *Object {
+	if n > 1<<20 {
+		panic(engineErr(fmt.Sprintf("virtual object: materialising %d cells", n)))
+	}
+	o := s.wobj(id)
+	zl := []Value{Const(8, 0)}
+	if o.Elem != nil {
+		zl = zeroLeaves(o.Elem, nil)
+	}
+	for len(o.Cells) < n {
+		o.Cells = append(o.Cells, zl...)
+	}
+	return o
+}
+
 func (s *State) loadLeaves(p PtrV, n int) []Value {
 	if p.Obj == 0 {
 		panic(engineErr("load through nil pointer (unchecked)"))
 	}
 	o := s.obj(p.Obj)
+	if o.Virtual && p.Off >= 0 && p.Off+n > len(o.Cells) {
+		o = s.materialize(p.Obj, p.Off+n)
+	}
 	if p.Off < 0 || p.Off+n > len(o.Cells) {
 		panic(engineErr(fmt.Sprintf("load out of object bounds: o%d(%s) off %d n %d len %d", p.Obj, o.Note, p.Off, n, len(o.Cells))))
 	}
@@ -271,6 +293,9 @@ func (s *State) store(p PtrV, v Value) {
 	}
 	o := s.wobj(p.Obj)
 	ls := toLeaves(v)
+	if o.Virtual && p.Off >= 0 && p.Off+len(ls) > len(o.Cells) {
+		o = s.materialize(p.Obj, p.Off+len(ls))
+	}
 	if p.Off < 0 || p.Off+len(ls) > len(o.Cells) {
 		panic(engineErr(fmt.Sprintf("store out of object bounds: o%d(%s) off %d n %d len %d", p.Obj, o.Note, p.Off, len(ls), len(o.Cells))))
 	}
@@ -484,6 +509,7 @@ type Violation struct {
 	Verdict string // sat | unknown
 	Hashes  []HashTarget
 	Seed    uint64
+	Case    int
 }
 
 type HashTarget struct {
@@ -567,7 +593,7 @@ func shortFile(f string) string {
 }
 
 func (s *State) reportWith(kind, msg string, m Model, verdict string) {
-	v := Violation{Kind: kind, Msg: msg, Where: s.where(), Trace: append([]Choice(nil), s.trace...), Verdict: verdict,
+	v := Violation{Case: caseIndex, Kind: kind, Msg: msg, Where: s.where(), Trace: append([]Choice(nil), s.trace...), Verdict: verdict,
 		Obs: append([]string(nil), s.obs...), Events: append([]string(nil), s.events...)}
 	if m != nil {
 		v.Model = map[string]uint64{}
